@@ -38,10 +38,12 @@ type c10Pub struct {
 }
 
 type c10Redis struct {
-	ln   net.Listener
-	mu   sync.Mutex
-	pubs []c10Pub
-	cmds []string
+	ln       net.Listener
+	mu       sync.Mutex
+	pubs     []c10Pub
+	cmds     []string
+	failMode string // "": accept; "err": answer PUBLISH with an error; "close": drop the connection on PUBLISH
+	attempts int
 }
 
 func c10StartRedis() (*c10Redis, error) {
@@ -119,9 +121,20 @@ func (s *c10Redis) serve(c net.Conn) {
 				continue
 			}
 			s.mu.Lock()
-			s.pubs = append(s.pubs, c10Pub{Channel: string(cmd[1]), Payload: append([]byte{}, cmd[2]...)})
+			mode := s.failMode
+			s.attempts++
+			if mode == "" {
+				s.pubs = append(s.pubs, c10Pub{Channel: string(cmd[1]), Payload: append([]byte{}, cmd[2]...)})
+			}
 			s.mu.Unlock()
-			_, _ = c.Write([]byte(":1\r\n"))
+			switch mode {
+			case "err":
+				_, _ = c.Write([]byte("-ERR scripted failure\r\n"))
+			case "close":
+				return
+			default:
+				_, _ = c.Write([]byte(":1\r\n"))
+			}
 		default:
 			_, _ = c.Write([]byte("-ERR unknown command\r\n"))
 		}
@@ -201,6 +214,7 @@ type c10Res struct {
 	Direct4  *c10RegOut  `json:"direct4"`
 	Direct6  *c10RegOut  `json:"direct6"`
 	Meta     interface{} `json:"meta"`
+	PubFail  interface{} `json:"pubfail"`
 }
 
 func c10Hexp(b []byte) *string {
@@ -351,6 +365,33 @@ func c10Run(t *testing.T, srv *c10Redis, c c10Case) (res c10Res) {
 			Keys: &core.ConjureSharedKeys{SharedSecret: secret}, Transport: pb.TransportType_Min, RegistrationSource: &src}
 		rm.AddRegistration(reg)
 		rm.MarkActive(reg)
+	case "pubfail":
+		// the Redis server refuses / drops the publication: what does the station make of the registration?
+		rm := c10Manager(t, c10DefaultSubnets)
+		secret, _ := hex.DecodeString(c.Secret)
+		src := pb.RegistrationSource_API
+		reg := &DecoyRegistration{PhantomIp: net.IP(c10Unhexp(c.Reg.Phantom)), registrationAddr: net.IP(c10Unhexp(c.Reg.Addr)),
+			PhantomPort: uint16(c.Reg.Port), PhantomProto: pb.IPProto(c.Reg.Proto),
+			Keys: &core.ConjureSharedKeys{SharedSecret: secret}, Transport: pb.TransportType_Min, RegistrationSource: &src}
+		srv.mu.Lock()
+		srv.failMode, srv.attempts = c.Via, 0
+		srv.mu.Unlock()
+		func() {
+			defer func() {
+				srv.mu.Lock()
+				srv.failMode = ""
+				srv.mu.Unlock()
+			}()
+			rm.AddRegistration(reg)
+		}()
+		srv.mu.Lock()
+		att := srv.attempts
+		srv.mu.Unlock()
+		res.PubFail = map[string]interface{}{
+			"valid":    reg.Valid,
+			"visible":  len(rm.GetRegistrations(reg.PhantomIp)),
+			"attempts": att,
+		}
 	case "clear":
 		if c.Via == "Cleanup" {
 			rm := c10Manager(t, c10DefaultSubnets)
